@@ -115,5 +115,19 @@ func Ops() []*core.Op {
 			Signature:  func(json.RawMessage, any) string { return "repair_seq" },
 			Shrink:     repairSeqShrink,
 		},
+		{
+			Name:           "c16.repair_target",
+			Doc:            "node/health Controller.Reconcile on the fake client, WHICH NodeClaim it acts on: the c16.repair clusters (policies x conditions x clock around the toleration x population around the 20% breaker x faults) with ALL NodeClaims of the cluster present - the Node's own, the other Nodes', stale ones and NodeClaims still launching (status.providerID \"\", no Node; some already deleting) - and Nodes without spec.providerID (the reconciled Node in 35% of the inputs); observes the NAMES of the NodeClaims Delete and Patch (termination timestamp) were called for, RequeueAfter, error; the spec is evaluated on every deleted name (it must be the reconciled Node's own NodeClaim - same, non-empty provider id - and the repair trigger must hold)",
+			N:              nq(2500, 20000),
+			Gen:            genRepairTarget,
+			Enum:           enumRepairTarget,
+			Impl:           implRepairTarget,
+			Rule:           "non-trivial = the Node matches a repair policy and either exactly one NodeClaim carries its provider id or the Node has no provider id while some NodeClaim has none either",
+			Nontrivial:     repairTargetNontrivial,
+			Labels:         repairTargetLabels,
+			Signature:      func(json.RawMessage, any) string { return "repair_target" },
+			Shrink:         repairTargetShrink,
+			ExhaustiveNote: "Node {with, without} provider id x own NodeClaim {present, absent, not launched yet} x launching NodeClaims {0,1,2} x {pooled, standalone} x {deleting or not} x clock at toleration edge {-1ns,0,+1ns} x breaker {closed, open} x target {unhealthy, healthy}",
+		},
 	}
 }
